@@ -20,7 +20,7 @@ RULE = ("random well-formed textgrids (1-3 interval/point tiers, 0-4 entries; la
 TRUSTED = ["oracle: field-by-field comparison in Python (harness/props/C01.py:oracle); CPython repr/float/json; UTF-8 file I/O",
            "hypothesis hnum of C01.parseShort_emit (every rendered time is a NumWord: non-empty, one line, no quote, no "
            "surrounding whitespace) is sampled on every time of every case (oracle clause 'numword'); likewise hypothesis hnum of "
-           "C01.parseLong_emit (LongNum: the numeral matches [\\d.]+(?:[eE][-+]?\\d+)? entirely; oracle clause 'longnum'); likewise "
+           "C01.parseLong_emit (LongNum: the numeral matches -?[\\d.]+(?:[eE][-+]?\\d+)? entirely; oracle clause 'longnum'); likewise "
            "hypothesis hnum of C02.decode_json_full / parseAny_json_full (JsonNum: float.__repr__ of the time is a number of the JSON "
            "grammar; oracle clause 'jsonnum')",
            "CPython's json module (json.dumps / json.loads) is trusted as a component and compared on every case with its Lean model: "
@@ -37,9 +37,9 @@ def numword_ok(w):
 
 def longnum_ok(w):
     """hypothesis `hnum` of C01.parseLong_emit (lean/PraatModel/Props/C01Long.lean): `LongNum`, i.e. the rendered time matches
-    the long-format reader's numeral pattern entirely"""
+    the captured group of the long-format reader's numeric rows (an optional minus sign and the numeral) entirely"""
     import re
-    return re.fullmatch(r"[\d.]+(?:[eE][-+]?\d+)?", w) is not None
+    return re.fullmatch(r"-?[\d.]+(?:[eE][-+]?\d+)?", w) is not None
 
 
 def jsonnum_ok(w):
@@ -171,6 +171,8 @@ def tags(c, r):
     if c["op"] in iomodel.MODEL_OPS:
         return ["model:" + c["op"]] + (["err:" + r[1]] if r[0] == "err" else [])
     out = [c["fmt"], "blanks:%s" % c["blanks"], "iei:%s" % c["iei"], c.get("stream", "plain")] + _sliver_tag(c)
+    if any(x < 0 for x in times_of(c["tg"])):
+        out.append("negative-times")
     for k in ("save", "open"):
         if k in r and r[k][0] == "err":
             out.append(f"{k}-err:{r[k][1]}")
@@ -245,6 +247,15 @@ def corpus():
                                         {"k": "I", "name": "i", "es": [[1.0, 2.9999999999999996, 'a"\nb']], "lo": 0.0, "hi": 5.0}]}
     for fmt in ioops.FORMATS:
         yield {"op": "roundtrip", "tg": g6, "fmt": fmt, "blanks": True, "iei": True}
+    # A30 (fixed): negative times - the long-format reader dropped the sign of a start and refused a negative end
+    g7 = {"lo": -3.0, "hi": 2.0, "tiers": [{"k": "I", "name": "a", "es": [[-2.5, -1.0, "x"], [0.5, 1.0, "y"]], "lo": -3.0, "hi": 2.0},
+                                         {"k": "P", "name": "p", "es": [[-2.0, "m"], [1.5, "n"]], "lo": -3.0, "hi": 2.0}]}
+    g8 = {"lo": -5.0, "hi": -0.0, "tiers": [{"k": "I", "name": "a", "es": [[-4.000000000000001, -1e-05, "x"]], "lo": -5.0, "hi": -0.0},
+                                          {"k": "P", "name": "p", "es": [[-1e-17, "m"]], "lo": -5.0, "hi": -0.0}]}
+    for fmt in ioops.FORMATS:
+        for blanks in (True, False):
+            yield {"op": "roundtrip", "tg": g7, "fmt": fmt, "blanks": blanks, "iei": True}
+            yield {"op": "roundtrip", "tg": g8, "fmt": fmt, "blanks": blanks, "iei": blanks}
     yield from json_corpus()
 
 
@@ -392,6 +403,8 @@ def gen_main(rnd, tier):
         blanks = rnd.random() < 0.6
         if not blanks and rnd.random() < 0.3:
             g = narrow_one_tier(g, rnd)         # the tier's own span must survive the round trip (not in the plain json format)
+        if rnd.random() < 0.25:
+            g = ioops.negate_tg(g, rnd)         # negative times: all below 0, or on both sides of it (A30, fixed)
         yield {"op": "roundtrip", "tg": g, "fmt": rnd.choice(ioops.FORMATS), "blanks": blanks, "iei": rnd.random() < 0.5,
                "stream": "keyword" if kw else "plain"}
 
